@@ -298,6 +298,30 @@ Fixpoint take_idx (l : list val) (idx : list val) : res (list val) :=
   | _ => Stuck "fancy index: non-integer" end.
 Fixpoint flatten2 (l : list val) : list val :=
   match l with [] => [] | x :: r => match seq_payload x with Some xs => (xs ++ flatten2 r)%list | None => x :: flatten2 r end end.
+(* arrays of any rank as nested lists: all-integer index tuples *)
+Fixpoint all_ints (l : list val) : option (list Z) :=
+  match l with [] => Some [] | VInt z :: r => match all_ints r with Some t => Some (z :: t) | None => None end | _ => None end.
+Fixpoint nd_get (c : val) (idx : list Z) {struct idx} : res val :=
+  match idx with
+  | [] => Ok c
+  | z :: r => if (z <? 0)%Z then Stuck "negative index"
+              else match seq_payload c with
+                   | Some l => match nth_error l (Z.to_nat z) with Some x => nd_get x r | None => Exc "IndexError" end
+                   | None => Exc "IndexError" end
+  end.
+Fixpoint nd_set (c : val) (idx : list Z) (v : val) {struct idx} : res val :=
+  match idx with
+  | [] => Ok v
+  | z :: r => if (z <? 0)%Z then Stuck "negative index"
+              else match seq_payload c with
+                   | Some l => match nth_error l (Z.to_nat z) with
+                               | Some x => do x' <- nd_set x r v;
+                                           match list_set_total l (Z.to_nat z) x' with Some l' => Ok (retag c l') | None => Exc "IndexError" end
+                               | None => Exc "IndexError" end
+                   | None => Exc "IndexError" end
+  end.
+Fixpoint nd_zeros (shape : list nat) : val :=
+  match shape with [] => VNum (Fin 0) | n :: r => VList (repeat (nd_zeros r) n) end.
 Definition subscript (c i : val) : res val :=
   match c, i with
   | VList l, VInt z | VTuple l, VInt z | VArr l, VInt z =>
@@ -317,6 +341,7 @@ Definition subscript (c i : val) : res val :=
                             | None => Exc "IndexError" end
            | _ => Stuck "subscript" end
   | VArr l, VTuple [VArr idx] | VArr l, VArr idx => do r <- take_idx l idx; Ok (VArr r)     (* a[np.where(mask)] on a 1-d array *)
+  | VArr l, VTuple ((_ :: _ :: _ :: _) as ix) => match all_ints ix with Some zs => nd_get (VArr l) zs | None => Stuck "subscript" end   (* rank >= 3 *)
   | VObj _ _, _ => Stuck "subscript"
   | _, VObj _ _ =>                                            (* 1-d slice a[lo:hi] *)
       match seq_payload c with
@@ -364,6 +389,15 @@ Definition set_item (c i v : val) : res val :=
                              | None => Exc "IndexError" end
         | _, _ => Stuck "set_item: row value" end
       else Stuck "set_item"
+  | VArr l, VTuple ((_ :: _ :: _ :: _) as ix) => match all_ints ix with Some zs => nd_set (VArr l) zs v | None => Stuck "set_item" end   (* rank >= 3 *)
+  | VArr l, VObj _ _ =>                                        (* a[lo:hi] = values (same length) or a scalar (broadcast) *)
+      match slice_bounds i (length l) with
+      | Some (a, b) =>
+          let n := (b - a)%nat in
+          match seq_payload v with
+          | Some vs => if Nat.eqb (length vs) n then Ok (VArr (firstn a l ++ vs ++ skipn b l)%list) else Exc "ValueError"
+          | None => Ok (VArr (firstn a l ++ repeat v n ++ skipn b l)%list) end
+      | None => Stuck "set_item: slice" end
   | _, _ => Stuck "set_item"
   end.
 
@@ -452,6 +486,9 @@ Definition builtin (name : string) (args : list val) (kws : list (string * val))
                      | [sh] => match seq_payload sh with
                                | Some [VInt n] => Ok (VArr (repeat (VNum (Fin 0)) (Z.to_nat n)))
                                | Some [VInt n; VInt m] => Ok (VArr (repeat (VList (repeat (VNum (Fin 0)) (Z.to_nat m))) (Z.to_nat n)))
+                               | Some dims => match all_ints dims with
+                                              | Some zs => Ok (arr (nd_zeros (map Z.to_nat zs)))
+                                              | None => Stuck "np.zeros: shape" end
                                | _ => Stuck "np.zeros: shape" end
                      | _ => Stuck "np.zeros" end) w)
   | "np.log10" => Some (match args with [a] => do r <- map1 3 (m_log true) (ul a) w; Ok ((if is_seq a then arr (fst r) else fst r), snd r) | _ => Exc "TypeError" end)
@@ -523,6 +560,9 @@ Definition builtin (name : string) (args : list val) (kws : list (string * val))
                      | _ => Stuck "hasattr" end) w)
   | "callable" => Some (pure_ (match args with [VObj "<bound method>" _] => Ok (VBool true) | [VObj _ _] => Stuck "callable(object)" | [_] => Ok (VBool false) | _ => Stuck "callable" end) w)
   | "tuple" => Some (pure_ (match args with [a] => do l <- as_list a; Ok (VTuple l) | _ => Stuck "tuple" end) w)
+  | "np.append" => Some (pure_ (match args with
+                     | [a; b] => let fl (x : val) := match seq_payload x with Some l => flatten2 l | None => [x] end in Ok (VArr (fl a ++ fl b)%list)
+                     | _ => Stuck "np.append: arity" end) w)
   | "np.ones" => Some (pure_ (match args with [VInt n] => Ok (VArr (repeat (VNum (Fin 1)) (Z.to_nat n))) | _ => Stuck "np.ones" end) w)
   | "np.nan_to_num" => Some (num1 xnan_to_num args w)
   | "np.isfinite" => Some (match args with
